@@ -7,6 +7,7 @@ import (
 	"fmt"
 	"log/slog"
 	"os"
+	"runtime"
 	"strconv"
 	"sync"
 	"testing"
@@ -34,6 +35,8 @@ type raceSummary struct {
 	Mismatches int    `json:"mismatches"`
 	FirstMsg   string `json:"first_mismatch,omitempty"`
 	Goroutines int    `json:"goroutines_started"`
+	Hang       string `json:"hang,omitempty"`
+	HangStacks string `json:"hang_stacks,omitempty"`
 }
 
 type sliceReader struct {
@@ -237,19 +240,39 @@ func RaceLane(t *testing.T) {
 	rt.FreePerturb.Store(true)
 	sum := &raceSummary{Prop: id}
 	t0 := time.Now()
+	iters := 0
 	for i := uint64(0); time.Since(t0) < time.Duration(wall)*time.Second; i++ {
 		tape := rt.NewGenTape(rt.Mix(seed, "race-"+id, from+i))
-		switch id {
-		case "C09":
-			raceC09(tape, sum)
-		case "C15":
-			raceC15(tape, sum)
-		case "C18":
-			raceC18(tape, sum)
-		default:
-			t.Skip("no race lane for " + id)
+		done := make(chan struct{})
+		go func() {
+			defer close(done)
+			switch id {
+			case "C09":
+				raceC09(tape, sum)
+			case "C15":
+				raceC15(tape, sum)
+			case "C18":
+				raceC18(tape, sum)
+			}
+		}()
+		select {
+		case <-done:
+		case <-time.After(20 * time.Second):
+			// a real deadlock (or livelock) in the un-gated run
+			// (a fresh summary: the stuck iteration's goroutines still own parts of sum)
+			hs := &raceSummary{Prop: id, Iterations: iters}
+			hs.Hang = fmt.Sprintf("iteration %d (seed %d, index %d) did not finish within 20 s of real time", iters, seed, from+i)
+			buf := make([]byte, 1<<16)
+			n := runtime.Stack(buf, true)
+			hs.HangStacks = string(buf[:n])
+			b, _ := json.Marshal(hs)
+			if out := os.Getenv("VSIM_OUT"); out != "" {
+				os.WriteFile(out, b, 0o644)
+			}
+			os.Exit(4)
 		}
-		sum.Iterations++
+		iters++
+		sum.Iterations = iters
 	}
 	b, _ := json.Marshal(sum)
 	if out := os.Getenv("VSIM_OUT"); out != "" {
